@@ -193,6 +193,7 @@ CONTROLS = {
          "\t\tif (!group.lowest_path_idx.has_value()) delta_ = std::abs(delta_);\n\t\tgroup_delta_ = (group.is_reversed) ? -delta_ : delta_;", "LOOP"),
     ],
     "C13": [
+        ("Difference(PathsD) computes an intersection", H + "clipper.h", "    return BooleanOp(ClipType::Difference, fillrule, subjects, clips, decimal_prec);", "    return BooleanOp(ClipType::Intersection, fillrule, subjects, clips, decimal_prec);", "WRAPPER.cliptype"),
         ('vertex count of AddPaths_ accumulates over the paths of a call', 'CPP/Clipper2Lib/src/clipper.engine.cpp', '    for (const Path64& path : paths)\n    {\n      //for each path create a circular double linked list of vertices\n      Vertex* v0 = v, * curr_v = v, * prev_v = nullptr;\n\n      if (path.empty())\n        continue;\n\n      v->prev = nullptr;\n      int cnt = 0;', '    int cnt = 0;\n    for (const Path64& path : paths)\n    {\n      //for each path create a circular double linked list of vertices\n      Vertex* v0 = v, * curr_v = v, * prev_v = nullptr;\n\n      if (path.empty())\n        continue;\n\n      v->prev = nullptr;', 'LOOP'),
         ('Union of a single path hands the path back', 'CPP/Clipper2Lib/include/clipper2/clipper.h', '  inline Paths64 Union(const Paths64& subjects, FillRule fillrule)\n  {\n    Paths64 result;', '  inline Paths64 Union(const Paths64& subjects, FillRule fillrule)\n  {\n    if (subjects.size() == 1) return subjects;\n    Paths64 result;', 'WRAP.no-passthrough'),
         ('GetDx divides dy by dx', 'CPP/Clipper2Lib/src/clipper.engine.cpp', '      return double(pt2.x - pt1.x) / dy;', '      return dy / double(pt2.x - pt1.x);', 'POLY.topx'),
@@ -243,6 +244,7 @@ CONTROLS = {
          "  ClipperOffset clip_offset( miter_limit,\n    arc_tolerance, false, reverse_solution);", "  ClipperOffset clip_offset( miter_limit,\n    arc_tolerance, reverse_solution);", "FORWARD.param"),
     ],
     "C18": [
+        ("the t <= 0 clamp stores the far end of the first segment", H + "clipper.core.h", "    if (t <= 0.0) ip = ln1a;\n    else if (t >= 1.0) ip = ln1b;", "    if (t <= 0.0) ip = ln1b;\n    else if (t >= 1.0) ip = ln1b;", "CLAMP.endpoint"),
         ("IsCollinear answers early for a horizontal first edge", H + "clipper.core.h", "    const auto d = pt2.x - sharedPt.x;\n", "    const auto d = pt2.x - sharedPt.x;\n    if (c == 0 && a != 0) return b == 0 && d != 0;\n", "POLY.cross"),
         ("PointInOpPolygon skips edges whose ends are not left of the point", E, "      if (pt.x < op2->pt.x && pt.x < op2->prev->pt.x);", "      if (pt.x <= op2->pt.x && pt.x <= op2->prev->pt.x);", "PIP.on-edge"),
         ('closing edge of PointInPolygon no longer reports IsOn', 'CPP/Clipper2Lib/include/clipper2/clipper.core.h', '      else prev = curr - 1;\n      double d = CrossProduct(*prev, *curr, pt);\n      if (d == 0) return PointInPolygonResult::IsOn;\n      if ((d < 0) == is_above) val = 1 - val;', '      else prev = curr - 1;\n      if ((CrossProduct(*prev, *curr, pt) < 0) == is_above) val = 1 - val;', 'PIP.on-edge'),
